@@ -1136,9 +1136,9 @@ class CompositeSubsetState(SubsetState):
 
     @property
     def attributes(self):
-        att = self.state1.attributes
+        att = tuple(self.state1.attributes)
         if self.state2 is not None:
-            att += self.state2.attributes
+            att += tuple(self.state2.attributes)
         return tuple(sorted(set(att)))
 
     @memoize
@@ -1219,9 +1219,9 @@ class MultiOrState(SubsetState):
 
     @property
     def attributes(self):
-        att = self.states[0].attributes
+        att = tuple(self.states[0].attributes)
         for state in self.states[1:]:
-            att += state.attributes
+            att += tuple(state.attributes)
         return tuple(sorted(set(att)))
 
     @memoize
